@@ -181,6 +181,15 @@ Definition type_traits (r : reg) (t : N) : res (option tinfo) :=
     else gen_walk (r_gen r) (wsub t g_ValueAdd)
   end.
 
+(* mpt++/type_traits_wrap.cpp: type_traits::get(int type) hands a C++ int to the
+   uintptr_t parameter of mpt_type_traits: the conversion is reduction modulo
+   2^g_WordBits (sign extension).  The other five wrappers (get(name, len = -1),
+   add(const type_traits &), add_basic, add_metatype(name = 0), add_interface(name = 0))
+   forward their arguments unchanged: they are the operations OpNamed, OpTypeAdd (Some _),
+   OpBasicAdd, OpMetaAdd, OpIfaceAdd. *)
+Definition wrap_traits (r : reg) (t : Z) : res (option tinfo) :=
+  type_traits r (Z.to_N (t mod 2 ^ Z.of_N g_WordBits)).
+
 (* ---------- lookups by name ---------- *)
 
 Definition name_is (n : name) (e : nentry) : bool :=
@@ -436,7 +445,8 @@ Inductive op :=
 | OpFmtSize (f : N)
 | OpFmtType (f : N)
 | OpFmtCode (t : Z)
-| OpSweep.
+| OpSweep
+| OpWrapTraits (t : Z).
 
 (* one line of the named part of a sweep: the entry found for an id and the
    ids its name resolves to (full-name mode, exact-length mode) *)
@@ -507,6 +517,7 @@ Definition step (r : reg) (o : op) : reg * out :=
   | OpFmtType f => (r, match msgvalfmt_typeid f with Ok c => ONum (Z.of_N c) | Err e => OCode e | Fault => OFault end)
   | OpFmtCode t => (r, ONum (msgvalfmt_code t))
   | OpSweep => (r, sweep r)
+  | OpWrapTraits t => (r, out_traits (wrap_traits r t))
   end.
 
 Fixpoint run (r : reg) (ops : list op) : list out :=
@@ -514,6 +525,22 @@ Fixpoint run (r : reg) (ops : list op) : list out :=
   | [] => []
   | o :: ops => let '(r', x) := step r o in x :: run r' ops
   end.
+
+(* ---------- process exit: the clean-up functions registered with atexit ----------
+   _interfaces_fini frees interface_types[0 .. interface_pos) and the table, _meta_fini every
+   entry of every chunk and the chunks, _generic_types_fini the chunks (the traits objects
+   belong to the callers), _dynamic_fini / _core_fini / _scalar_fini / _iovec_fini one table
+   each; every one of them resets its statics, so a later call (from an exit handler that runs
+   afterwards) starts from the state of a fresh process: [reg0].
+   [fini_counts]: how many REGISTERED interface entries, registered metatype entries and
+   generic chunks the clean-up releases (what exists of the built-in part depends on which
+   tables were ever created, which the model does not track). *)
+Definition is_some {A} (o : option A) : bool := match o with Some _ => true | None => false end.
+
+Definition fini_counts (r : reg) : nat * nat * nat :=
+  (length (filter is_some (skipn (N.to_nat (g_InterfaceAdd - g_InterfaceBase)) (firstn (r_ipos r) (r_iface r)))),
+   (length (concat (r_meta r)) - 1)%nat,
+   length (r_gen r)).
 
 (* state after a history *)
 Definition exec (r : reg) (ops : list op) : reg := fold_left (fun r o => fst (step r o)) ops r.
